@@ -658,6 +658,19 @@ def run_commands(tier, budget: Budget, rnd, res: StreamResult, base: Path) -> No
             argv += ["best_states", "--sampling-repetitions", str(reps), "--eval-repetitions", str(eval_reps)]
         if command_case(res, argv, state):
             res.nontrivial.add(("cmd", cmd, n, steps, reps, i))
+    # full-length evaluations at 5 players over real-valued generators: at the end of such an episode the exploitability gap is a
+    # rounding residue, often a NEGATIVE one (−9e-16 … −1e-13; about two runs in three hold one).  The saved matrix must be the
+    # computed one, residues and their signs included.
+    for j, (gen, solver) in enumerate([("noisy_factory_square", "random"), ("graph", "largest"), ("noisy_factory", "random")][: 2 if tier == "quick" else 3]):
+        if budget.left() < 4:
+            res.notes.append("budget: full-length command runs skipped")
+            break
+        argv = ["--number-of-players", "5", "--run-steps-limit", "25", "--model-dir", str(model_dir), "--parallel-environments", "1",
+                "--unique-name", f"full-length-{j}", "--seed", str(rnd.randint(0, 10 ** 6)), "--game-generator", gen,
+                "--gap-function", "exploitability", "solve", "--solve-repetitions", "6", "--solver", solver]
+        res.count("command:full-length-n5")
+        if command_case(res, argv, state):
+            res.nontrivial.add(("cmd", "solve-full-length", gen, solver))
 
 
 def command_case(res: StreamResult, argv: list[str], state: dict) -> bool:
